@@ -6,20 +6,29 @@
 (*   constructs of the open findings (else the GENERATOR is broken: reported as "GEN", which the  *)
 (*   runner turns into exit 2, never into a violation).                                           *)
 (* Mode "repro": pinned reproducers of findings; judged by the same exact oracle, triggers allowed.*)
-EXTENDS AmlNs, Json, IOUtils, TraceLib
+EXTENDS AmlNs, Json, IOUtils, TraceLib, CSV
+I == INSTANCE AmlNsImpl
 CONSTANT Mode
 Trace == ndJsonDeserialize(IOEnv.TRACE)
-FindingIds == {"D1", "D1b", "D2", "D2c", "D3", "D5", "D7", "D8", "D9", "D10", "D11", "D12", "D13", "D14", "D15"}
+FindingIds == {"D1", "D1b", "D2", "D2c", "D3", "D5", "D6", "D7", "D8", "D9", "D10", "D11", "D12", "D13", "D14", "D15", "D16"}
 Open == {d \in FindingIds : IOEnv["OPEN_" \o d] = "1"}
 
 VARIABLES l, mismatch
 vars == <<l, mismatch>>
 
+CoveredByD16(toks) == LET r == I!Parse(toks, "GiveUpOnRelocationsOnly") IN "res" \in DOMAIN r /\ r.res = "giveup"
 Check(e) ==
   LET st == Load(e.toks) IN
   IF ~Complete(st, e.toks) THEN <<l, "GEN", <<"not a complete well-formed program", st.err>>>>
   ELSE IF Mode = "strict" /\ st.trig \cap Open # {} THEN <<l, "GEN", <<"program uses a construct excluded by an open finding", st.trig \cap Open>>>>
-  ELSE LET j == Judge(st, e.obs) IN IF j = <<>> THEN <<>> ELSE <<l, "C11", j>>
+  ELSE LET j == Judge(st, e.obs) IN
+       IF j = <<>> THEN <<>>
+       \* D16 has no syntactic trigger: its predicate is "the pinned design (AmlNsImpl) gives up in a merge pass after a
+       \* pass without relocations".  It is evaluated only when the real parser rejected the program; a program it covers
+       \* is recorded (IOEnv.COVERED) instead of reported.
+       ELSE IF Mode = "strict" /\ "D16" \in Open /\ e.obs.res = "error" /\ CoveredByD16(e.toks)
+            THEN IF CSVWrite("%1$s", <<ToJson([id |-> e.id, finding |-> "D16"])>>, IOEnv.COVERED) THEN <<>> ELSE <<>>
+       ELSE <<l, "C11", j>>
 
 Init == l = 1 /\ mismatch = <<>>
 \* strict: stop at the first program the specification does not allow.  repro: judge every pinned
